@@ -82,7 +82,10 @@ Definition judge_det (c : list (str * ddef) * cval * outcome plainsec * outcome 
   let r := m_load defs cond in
   let d1m := obind r m_plain in
   let d2m := obind d1m (fun x => obind (m_load (fst x) (snd x)) m_plain) in
-  let agree := out_eqb plainsec_eqb d1m d1 && out_eqb plainsec_eqb d2m d2 in
+  (* SigmaErr 50: the implementation could not reload its own dict because a modifier refused the
+     written value; modifiers are abstract in the model, so this outcome is not compared (the oracle rejects it) *)
+  let agree := out_eqb plainsec_eqb d1m d1 &&
+               (match d2 with SigmaErr 50 => true | _ => out_eqb plainsec_eqb d2m d2 end) in
   let dom := match r, d1m with Ok r', Ok _ => dom_dets r' | _, _ => false end in
   bits agree (spec_rt d1 d2 q1 q2) dom (existsb (fun nd => nontriv_def (snd nd)) defs).
 
